@@ -419,6 +419,8 @@ type c11Report struct {
 	EnginePrograms, TupleSets, Checks int64
 	EagerCycle                        int64
 	EagerCycleSample                  string
+	Unstable                          int64
+	UnstableSample                    string
 	NonTrivial                        int64
 	SchemaErrors, OtherErrors         int64
 	Unsettled, WriteRetries           int64
@@ -786,6 +788,23 @@ func (e *c11Engine) runProgram(index int, p *Prog, text string, maxTuples int) e
 					}
 					rep.SchemaErrors++
 					var tnames []string
+					// the engine runs free: a candidate counts only if it reproduces 5/5
+					again := 1
+					for k := 0; k < 4; k++ {
+						e.baseG = runtime.NumGoroutine()
+						r2 := e.reg.PermissionEngine().CheckRelationTuple(e.ctx, &relationtuple.RelationTuple{Namespace: qu.NS, Object: oid(qu.NS), Relation: qu.Rel, Subject: sub}, 0)
+						e.settle()
+						if schemaErrorClass(r2.Err) == class {
+							again++
+						}
+					}
+					if again < 5 {
+						rep.Unstable++
+						if rep.UnstableSample == "" || len(text) < len(rep.UnstableSample) {
+							rep.UnstableSample = fmt.Sprintf("schema error in %d of 5 runs: check %s:o#%s@%s (strict=%v), tuples %v, program:\n%s", again, qu.NS, qu.Rel, subjNames[si], strict, set, text)
+						}
+						continue
+					}
 					for _, t := range set {
 						tnames = append(tnames, t.String())
 					}
@@ -1107,6 +1126,10 @@ func TestC11(t *testing.T) {
 		tot.SchemaErrors += r.SchemaErrors
 		tot.OtherErrors += r.OtherErrors
 		tot.Unsettled += r.Unsettled
+		tot.Unstable += r.Unstable
+		if r.UnstableSample != "" && (tot.UnstableSample == "" || len(r.UnstableSample) < len(tot.UnstableSample)) {
+			tot.UnstableSample = r.UnstableSample
+		}
 		tot.EagerCycle += r.EagerCycle
 		if r.EagerCycleSample != "" && (tot.EagerCycleSample == "" || len(r.EagerCycleSample) < len(tot.EagerCycleSample)) {
 			tot.EagerCycleSample = r.EagerCycleSample
@@ -1131,6 +1154,9 @@ func TestC11(t *testing.T) {
 			}
 		}
 	}
+	if tot.Unstable > 0 {
+		fmt.Printf("[c11] note: %d schema-error candidates did not reproduce 5/5 on the free-running engine and are not reported, e.g. %s\n", tot.Unstable, strings.ReplaceAll(clip(tot.UnstableSample, 900), "\n", "\n    "))
+	}
 	if tot.OtherErrors > 0 {
 		fmt.Printf("[c11] note: %d checks returned an error that is not a schema error (not judged), e.g. %s\n", tot.OtherErrors, clip(tot.OtherErrorSample, 400))
 	}
@@ -1152,7 +1178,7 @@ func TestC11(t *testing.T) {
 		"schema error = Result.Err carrying herodot ErrBadRequest (\"relation ... does not exist\" / malformed), ErrNotFound, or \"not implemented\"; any other error is counted (other_errors) and not judged; allowed/denied is never judged here",
 		"accepted programs in which `this.permits.X(ctx)` leaves in eager position (under '!', or right operand of '&&') form a cycle among the permissions of one namespace are not run: keto builds those checks eagerly without consuming depth and never returns (counted as programs_not_run_eager_permission_cycle; this is a termination defect, not a schema error)",
 		fmt.Sprintf("limit.max_read_depth = %d (a tuple set has <= 3 tuples and only a hop over a tuple consumes depth; a larger limit only multiplies revisits of the same nodes: two self-loop tuples under two traversals cost 2^depth sub-checks)", c11Depth),
-		"the engine runs free; each (program, mode, tuple set, query) is run once; whether a schema error surfaces could depend on short-circuiting for some operand orders, so the check is conservative (may miss, cannot invent)",
+		"the engine runs free; each (program, mode, tuple set, query) is run once, and a schema error is reported only if the same check returns it in 5 of 5 runs (others are counted as unstable_candidates); whether a schema error surfaces can depend on which sibling check answers first, so the check is conservative (may miss, cannot invent)",
 		"converse: 'pointing at the offending token' is read as: some error lies on the token's line and its column span touches the token, with one column of slack on both sides (0- vs 1-based columns are not distinguished)",
 		"programs that differ only by a renaming of namespaces are run through the engine once (one representative); programs with a namespace without declarations that no type mentions, or with a relation that no permission leaf and no SubjectSet type mentions, are not run through the engine (the smaller program without that part is enumerated); the parser part runs on every program",
 		"relations are referenced only through the documented forms: `p.related.x.includes` for relation names, `p.permits.x(ctx)` for permission names",
@@ -1174,6 +1200,8 @@ func TestC11(t *testing.T) {
 		"checks":                   int(tot.Checks),
 		"schema_errors":            int(tot.SchemaErrors),
 		"other_errors":             int(tot.OtherErrors),
+		"unstable_candidates":       int(tot.Unstable),
+		"unstable_candidate_example": tot.UnstableSample,
 		"unsettled_goroutine_waits": int(tot.Unsettled),
 		"programs_not_run_eager_permission_cycle": int(tot.EagerCycle),
 		"eager_permission_cycle_example": tot.EagerCycleSample,
